@@ -890,6 +890,8 @@ def oracle(run, decls, ops, outs, final_names, final_insts, toklist, case):
                 run.violate({'kind': 'modify_changed_superclass'}, case, out)
             if sh.children(ln):
                 run.violate({'kind': 'modify_of_class_with_children_accepted'}, case, out)
+            if any(c.lower() == ln for c, _ in sh.insts):
+                run.violate({'kind': 'modify_of_class_with_instances_accepted'}, case, out)
             sh.cls[ln] = op['c']
             sh.cache = {}
         elif o == 'delete':
@@ -1059,6 +1061,44 @@ def mof_case(seed):
     return res
 
 
+
+# --------------------------------------------------------------------------- names outside ASCII (oracle only)
+
+FOLD_PAIRS = [('C\u00df', 'CSS'), ('Cla\u017fs', 'CLASS'), ('TST_\u00dfx', 'tst_SSX'), ('\u01c5_a', '\u01c6_A')]
+
+
+def unicode_probe(run):
+    """CIM names may contain U+0080..U+FFEF.  The stores compare keys with casefold(), the providers
+    with lower(); where the two differ the hierarchy queries must still agree with what was accepted.
+    The model is ASCII-only, so this stream has no K side."""
+    import pywbem
+    import pywbem_mock
+    for base, alias in FOLD_PAIRS:
+        if base.casefold() != alias.casefold():
+            continue
+        for order in (0, 1):
+            conn = pywbem_mock.FakedWBEMConnection(default_namespace=NS)
+            case = {'probe': 'non-ascii', 'base': base, 'alias': alias, 'order': order}
+            try:
+                conn.CreateClass(pywbem.CIMClass(base))
+                conn.CreateClass(pywbem.CIMClass('Sub', superclass=alias))
+                conn.CreateClass(pywbem.CIMClass('SubSub', superclass='sub'))
+            except pywbem.Error:
+                run.count('probe:non-ascii-refused')
+                continue
+            run.count('probe:non-ascii-accepted')
+            name = base if order == 0 else alias
+            kids = [n.lower() for n in conn.EnumerateClassNames(ClassName=name)]
+            deep = sorted(n.lower() for n in conn.EnumerateClassNames(ClassName=name, DeepInheritance=True))
+            if kids != ['sub'] or deep != ['sub', 'subsub']:
+                run.violate({'kind': 'non_ascii_name_folding_inconsistent', 'check': 'enumerate'}, case,
+                            {'children': kids, 'subtree': deep})
+            conn.DeleteClass(name)
+            left = sorted(k.classname for k in conn.cimrepository.get_class_store(NS).iter_values(copy=False))
+            if left:
+                run.violate({'kind': 'non_ascii_name_folding_inconsistent', 'check': 'delete'}, case,
+                            {'left_in_store': left})
+
 # --------------------------------------------------------------------------- run / search / replay
 
 def _work(args):
@@ -1136,6 +1176,7 @@ def run(run):
             oracle(run, decls, ops, outs, names, insts, toklist, case)
         del results, answers
         _thin(run)
+    unicode_probe(run)
     # MOF compilation path: same forests through the MOF compiler (real code only)
     nm = 400 if run.thorough else 60
     mres = common.pmap(mof_case, [rng.getrandbits(48) for _ in range(nm)], chunksize=4)
@@ -1185,6 +1226,12 @@ def search(run):
 def replay(payload):
     case = payload['case']
     r = common.Run(PROP, 'quick', 0)
+    if case.get('probe') == 'non-ascii':
+        unicode_probe(r)
+        bad = [v for v in r.violations if v['case']['base'] == case['base'] and v['case']['order'] == case['order']]
+        if bad:
+            return False, 'property C12 FAILS for non-ASCII names: ' + json.dumps(bad[0]['sig']) + ' ' + json.dumps(bad[0]['observed'])
+        return True, 'non-ASCII name probe holds'
     if 'mof_seed' in case:
         res = mof_case(case['mof_seed'])
         bad = bool(res and res.get('diffs'))
